@@ -296,9 +296,6 @@ class C16(Prop):
             if "!= v" in why or "does not read back as the value" in why:
                 if first(src, "PDiffs") in ("yes", "no"):
                     return "pdiffs_default_serializer"
-                sb = first(src, "Signed-By")
-                if sb is not None and "\n" in sb:
-                    return "signature_keyblock_newline"
         return None
 
     def neighbours(self, stream, fields):
